@@ -546,7 +546,7 @@ func Run(dir, tier string, seed int64) error {
 				run.Fail(coqgen.Failure{ID: 500000 + run.Res.Evaluations, Class: "panic:" + class, What: p, Input: desc})
 			}
 		}
-		certs := map[string]string{"rsa": spKey.CertB64(), "ec": idp.ECCertB64(), "not-base64": "!!!", "base64-not-der": "bm90IGEgY2VydA==", "empty": "", "truncated": spKey.CertB64()[:200], "whitespace": " \n" + spKey.CertB64()[:64] + "\n" + spKey.CertB64()[64:] + "\n "}
+		certs := map[string]string{"rsa": spKey.CertB64(), "ec": idp.ECCertB64(), "not-base64": "!!!", "base64-not-der": "bm90IGEgY2VydA==", "empty": "", "blank": " ", "blank-lines": "\n\t  \n", "armour-only": "-----BEGIN CERTIFICATE-----\n-----END CERTIFICATE-----", "truncated": spKey.CertB64()[:200], "whitespace": " \n" + spKey.CertB64()[:64] + "\n" + spKey.CertB64()[64:] + "\n "}
 		var cnames []string
 		for k := range certs {
 			cnames = append(cnames, k)
@@ -576,7 +576,7 @@ func Run(dir, tier string, seed int64) error {
 		}
 	}
 
-	rule := "every deletion / duplication / emptying of each element and every deletion / emptying of each attribute of a full AuthnRequest (unsigned and enveloped-signed; POST and Redirect; signing required and not), LogoutRequest (POST and Redirect), SOAP AttributeQuery (with and without ds:Signature) and SP metadata document (7 certificate variants), applied singly and in pairs (quick: all singles and a sample of pairs per document; thorough: all pairs), plus byte-level mutations of each; every SigAlg URI (and none / junk) x {RSA, EC, Ed25519, undecodable, no} registered certificate x 12 signature values (junk, empty, undecodable, RSA-sized, r||s-sized, well-formed and degenerate DER (r, s) sequences) x signing required or not; every route x 6 methods x 8 parameter shapes; every storage fault (operation x kind x 1st/2nd call x metadata signing) on every endpoint. A recovered panic is a failure. The SSO requests additionally go through the Coq model (whose Panicked outcome is proved unreachable) and must agree with it. distinct = (class, status/outcome)."
+	rule := "every deletion / duplication / emptying of each element and every deletion / emptying of each attribute of a full AuthnRequest (unsigned and enveloped-signed; POST and Redirect; signing required and not), LogoutRequest (POST and Redirect), SOAP AttributeQuery (with and without ds:Signature) and SP metadata document (10 certificate variants: RSA, EC, not base64, not DER, empty, blank, blank lines, PEM armour only, truncated, wrapped), applied singly and in pairs (quick: all singles and a sample of pairs per document; thorough: all pairs), plus byte-level mutations of each; every SigAlg URI (and none / junk) x {RSA, EC, Ed25519, undecodable, no} registered certificate x 12 signature values (junk, empty, undecodable, RSA-sized, r||s-sized, well-formed and degenerate DER (r, s) sequences) x signing required or not; every route x 6 methods x 8 parameter shapes; every storage fault (operation x kind x 1st/2nd call x metadata signing) on every endpoint. A recovered panic is a failure. The SSO requests additionally go through the Coq model (whose Panicked outcome is proved unreachable) and must agree with it. distinct = (class, status/outcome)."
 	return sso.RunWith("C09", dir, tier, seed, scenarios, rule, extra, oracle)
 }
 
